@@ -9,9 +9,10 @@ B=$VERIF/build
 mkdir -p "$B"
 LIBDIR=$("$VERIF/bin/build_variant.sh" "$VARIANT")
 exec 8>"$B/.lock"; flock 8
-CXXFLAGS="-std=c++17 -g -O1 -fno-omit-frame-pointer -Wall -Wextra -Wno-unused-parameter -Wno-missing-field-initializers -fno-builtin-malloc -fPIE"
+CXXFLAGS="-std=c++17 -g -O1 -fno-omit-frame-pointer -Wall -Wextra -Wno-unused-parameter -Wno-missing-field-initializers -Wno-nonnull-compare -Wno-infinite-recursion -fno-builtin-malloc -fPIE"
 objs=()
 for src in "$VERIF"/sim/*.cpp; do
+  case $(basename "$src") in ctl_*) continue;; esac
   o=$B/$(basename "${src%.cpp}").o
   if [ ! -f "$o" ] || [ "$src" -nt "$o" ] || [ -n "$(find "$VERIF"/sim -name '*.hpp' -newer "$o" | head -1)" ]; then
     need=1
